@@ -23,6 +23,7 @@ def excName : Exc → String
   | .accessDenied => "AccessDenied"
   | .fileNotFound => "FileNotFoundError"
   | .keyError => "KeyError"
+  | .typeError => "TypeError"
 
 def jRes (f : α → Json) : Res α → Json
   | .ok a => jObj [("ok", f a)]
